@@ -370,3 +370,116 @@ def _reduce(p):
             return numpoly.det(a) if sp != "numpy" else numpy.linalg.det(a)
         raise ValueError(fn)
     return run
+
+
+# ------------------------------------------------------ C07 comparison operators
+_CMP_NP = {"lt": "less", "le": "less_equal", "gt": "greater", "ge": "greater_equal", "eq": "equal", "ne": "not_equal"}
+_CMP_OP = {"lt": operator.lt, "le": operator.le, "gt": operator.gt, "ge": operator.ge, "eq": operator.eq, "ne": operator.ne}
+
+
+@action("compare")
+def _compare(p):
+    import numpoly
+    op, sp = p["op"], p.get("spelling", "operator")
+    if sp == "operator":
+        return _CMP_OP[op]
+    return getattr(numpy if sp == "numpy" else numpoly, _CMP_NP[op])
+
+
+@action("extreme")
+def _extreme(p):
+    import numpoly
+    return getattr(numpy if p.get("spelling") == "numpy" else numpoly, p["op"])
+
+
+# --------------------------------------------------- C19 leading terms and friends
+@action("lead")
+def _lead(p):
+    import numpoly
+    fn, sp = p["fn"], p.get("spelling", "numpoly")
+
+    def run(a):
+        if fn in ("lead_exponent", "lead_coefficient", "sortable_proxy"):
+            kw = {}
+            if p.get("flags_given", True):
+                kw = {"graded": p["graded"], "reverse": p["reverse"]}
+            return getattr(numpoly, fn)(a, **kw)
+        if fn == "isconstant":
+            return a.isconstant() if sp == "method" else numpoly.isconstant(a)
+        if fn in ("argmax", "argmin", "amax", "amin"):
+            if sp == "method":
+                return getattr(a, {"amax": "max", "amin": "min"}.get(fn, fn))()
+            return getattr(numpy if sp == "numpy" else numpoly, fn)(a)
+        raise ValueError(fn)
+    return run
+
+
+@action("tonumpy")
+def _tonumpy(p):
+    import numpoly
+    return (lambda a: a.tonumpy()) if p.get("spelling") == "method" else numpoly.tonumpy
+
+
+@action("todict")
+def _todict(p):
+    from .record import Extra
+
+    def run(a):
+        d = a.todict()
+        rows = [[int(e) for e in k] for k in d]
+        coefs = [P._flat_nums(numpy.asarray(v)) for v in d.values()]
+        return Extra(None, rows=rows, coefs=coefs)
+    return run
+
+
+@action("decompose")
+def _decompose(p):
+    import numpoly
+    return numpoly.decompose
+
+
+@action("set_dimensions")
+def _set_dimensions(p):
+    import numpoly
+    return lambda a: numpoly.set_dimensions(a, p["dims"])
+
+
+# ------------------------------------------------------------ C18 index utilities
+def _ct(v):
+    if isinstance(v, list):
+        return tuple(_ct(x) for x in v)
+    return float("inf") if v == "inf" else float(v)
+
+
+@action("index")
+def _index(p):
+    import numpoly
+    fn, q = p["fn"], p.get("p", {})
+
+    def run():
+        if fn == "glexsort":
+            keys = numpy.array(q["keys"], dtype=int)
+            if q.get("oned"):
+                keys = keys[0]
+            return numpoly.glexsort(keys, graded=q["graded"], reverse=q["reverse"])
+        if fn == "cross_truncate":
+            return numpoly.cross_truncate(numpy.array(q["indices"], dtype=int).reshape(len(q["indices"]), -1),
+                                          q["bound"], _ct(q["norm"]))
+        kw = {}
+        if "stop" in q:
+            kw["stop"] = q["stop"]
+        if "dimensions" in q:
+            kw["dimensions"] = q["dimensions"]
+        if "cross_truncation" in q:
+            kw["cross_truncation"] = _ct(q["cross_truncation"])
+        if fn == "bindex":
+            if "ordering" in q:
+                kw["ordering"] = q["ordering"]
+            return numpoly.bindex(q["start"], **kw)
+        kw["graded"], kw["reverse"] = q["graded"], q["reverse"]
+        if fn == "glexindex":
+            return numpoly.glexindex(q["start"], **kw)
+        if fn == "monomial":
+            return numpoly.monomial(q["start"], **kw)
+        raise ValueError(fn)
+    return run
